@@ -1,146 +1,9 @@
 /-
-  Proofs/Gen.lean — theorems over the fact tables regenerated from /repo's source on every run
-  (`xh facts` → Generated/Facts.lean).  All are closed by kernel evaluation (`decide`), so a
-  change of the source that alters a table makes the corresponding theorem fail to check.
+  Proofs/Gen.lean — all theorems over the regenerated fact tables (split by topic so that a property's
+  check depends only on the tables it uses).
 -/
-import Generated.Facts
-import Proofs.Expect
-import Xsel.Axes
-
-namespace Xsel.Gen
-open Xsel
-
-/-- the evaluator dispatches every nonterminal to the handler the model was written against -/
-theorem handlers_agree : Generated.handlers = Expect.handlers := by decide +kernel
-
-/-- the parser's production table is the grammar the model and the C08 theorems were written against -/
-theorem productions_agree : Generated.productions = Expect.productions := by decide +kernel
-
-def hasHandler (nt : String) : Bool := Generated.handlers.any (fun p => p.1 == nt)
-
-def ntCount (syms : List (Bool × String)) : Nat := (syms.filter (·.1)).length
-
-/-- nonterminals whose children are walked by `gatherFunctionArgs`, not by `execChildren` -/
-def argListNTs : List String :=
-  ["FunctionSignature", "FunctionCallArgumentList", "FunctionCallArgumentListArgWithNext", "FunctionCallArgumentListEndArg"]
-
-/-- **no_dropped_symbol** — a production whose head has no handler is evaluated by `execChildren`,
-    which evaluates only the first nonterminal child; so such a production must not have two
-    nonterminal children (otherwise part of the expression is silently ignored). -/
-theorem no_dropped_symbol :
-    (Generated.productions.all fun p => hasHandler p.1 || argListNTs.contains p.1 || ntCount p.2 ≤ 1) = true := by
-  decide +kernel
-
-/-- handlers that take `children[0]` and `children[1]` -/
-def binaryHandlers : List String :=
-  ["leftRightDependentResult", "execOrExprOr", "execAndExprAnd", "execEqualityExprEqual", "execEqualityExprNotEqual",
-   "execRelationalExprLessThan", "execRelationalExprGreaterThan", "execRelationalExprLessThanOrEqual",
-   "execRelationalExprGreaterThanOrEqual", "execAdditiveExprAdd", "execAdditiveExprSubtract",
-   "execMultiplicativeExprMultiply", "execMultiplicativeExprDivide", "execMultiplicativeExprMod",
-   "execUnionExprUnion", "execAbbreviatedRelativeLocationPath", "execFilterExprWithPredicate", "execFunctionCall"]
-
-/-- **binary_handlers_have_two_children** — every nonterminal evaluated by a handler that indexes
-    `children[1]` has exactly two nonterminal children in each of its productions (no index panic). -/
-theorem binary_handlers_have_two_children :
-    (Generated.handlers.all fun h => !binaryHandlers.contains h.2 ||
-      (Generated.productions.all fun p => p.1 != h.1 || ntCount p.2 == 2)) = true := by
-  decide +kernel
-
-/-- **inplace_ops_on_fresh** — every call that sorts a slice in place (sort.Sort, cleanupForwardAxis,
-    cleanupBackwardAxis, unionCleanup) is applied to a slice created in the same function; the only
-    exceptions are the three cleanup helpers themselves, which sort their parameter. -/
-theorem inplace_ops_on_fresh :
-    (Generated.sortSites.all fun s => s.2.2 == "fresh-local" ||
-      ["exec.cleanupForwardAxis", "exec.cleanupBackwardAxis", "exec.unionCleanup"].contains s.1) = true := by
-  decide +kernel
-
-/-- **no_shared_writes** — outside the command-line tool's `main`, no function assigns to a
-    package-level variable or calls a mutating/synchronising method (Store, LoadOrStore, Delete, Lock, …)
-    on one (no caches, counters or memo tables shared between queries); the CLI's directory walker only
-    adds to its WaitGroup. -/
-theorem no_shared_writes :
-    (Generated.globalWrites.all fun w => w.1 == "main.main" || w == ("main.walker", "fileSync.Add")) = true := by decide +kernel
-
-/-- **one_write_per_block** — the command-line tool writes to standard output in exactly one place:
-    the single `fmt.Print` of a file's whole block in `executeXpath` (the premise of `cli_output_perm`) -/
-theorem one_write_per_block :
-    Generated.stdoutWrites = [("main.executeXpath", "fmt.Print")] := by decide +kernel
-
-/-- **builder_not_event_recursive** — no function of the store package calls itself
-    (the tree builder is a loop; its stack use does not grow with the number of events). -/
-theorem builder_not_event_recursive :
-    (Generated.selfRecursive.all fun f => f.1 != "store") = true := by decide +kernel
-
-/-- the only goroutines are the command-line tool's per-file workers -/
-theorem go_statements_only_in_cli :
-    Generated.goStmts = [("main.main", "runXpathOnStdin"), ("main.walker", "runXpathOnFile")] := by decide +kernel
-
-/-- the XPath 1.0 core function library (§4) except `id`, with the argument counts the Recommendation allows
-    (`concat` takes two or more) -/
-def coreFunctions : List (String × List Nat) :=
-  [("last", [0]), ("position", [0]), ("count", [1]), ("local-name", [0, 1]), ("namespace-uri", [0, 1]), ("name", [0, 1]),
-   ("string", [0, 1]), ("concat", [2, 3, 4]), ("starts-with", [2]), ("contains", [2]), ("substring-before", [2]),
-   ("substring-after", [2]), ("substring", [2, 3]), ("string-length", [0, 1]), ("normalize-space", [0, 1]),
-   ("translate", [3]), ("boolean", [1]), ("not", [1]), ("true", [0]), ("false", [0]), ("lang", [1]),
-   ("number", [0, 1]), ("sum", [1]), ("floor", [1]), ("ceiling", [1]), ("round", [1])]
-
-/-- **builtins_agree** — every core function is present and accepts the Recommendation's argument counts -/
-theorem builtins_agree :
-    (coreFunctions.all fun f => Generated.builtins.any fun b => b.1 == f.1 && f.2.all (fun k => b.2.contains k)) = true := by
-  decide +kernel
-
-/-- the axes in the order of their names, with the selector `execAxisName` must call and the accessor
-    or per-node collector that selector must use (the Lean `Model.axis` has the same twelve cases;
-    `self` needs no selector) -/
-def axisTable : List (Axis × String × String × String) :=
-  [(.ancestor, "ancestor", "selectAncestor", "appendAncestors"),
-   (.ancestorOrSelf, "ancestor-or-self", "selectAncestorOrSelf", "appendAncestors"),
-   (.attribute, "attribute", "selectAttributes", "Attributes()"),
-   (.child, "child", "selectChild", "Children()"),
-   (.descendant, "descendant", "selectDescendant", "appendDescendant"),
-   (.descendantOrSelf, "descendant-or-self", "selectDescendantOrSelf", "appendDescendant"),
-   (.following, "following", "selectFollowing", "appendFollowing"),
-   (.followingSibling, "following-sibling", "selectFollowingSibling", "appendFollowingSibling"),
-   (.namespace, "namespace", "selectNamespace", "Namespaces()"),
-   (.parent, "parent", "selectParent", "Parent()"),
-   (.preceding, "preceding", "selectPreceding", "appendPreceding"),
-   (.precedingSibling, "preceding-sibling", "selectPrecedingSibling", "appendPrecedingSibling")]
-
-/-- **axis_dispatch_agrees** — `execAxisName` maps every axis name to the selector the model's
-    `Model.axis` case for that axis transcribes -/
-theorem axis_dispatch_agrees :
-    Generated.axisDispatch = axisTable.map (fun r => (r.2.1, r.2.2.1)) := by decide +kernel
-
-/-- **selector_cleanup_agrees** — every selector collects with the expected accessor/collector and
-    returns through `cleanupBackwardAxis` exactly for the reverse axes (`Axis.isReverse`, the
-    direction the C01/C03 theorems are stated with), `cleanupForwardAxis` otherwise -/
-theorem selector_cleanup_agrees :
-    Generated.selectorShape = axisTable.map (fun r =>
-      (r.2.2.1, r.2.2.2, if r.1.isReverse then "cleanupBackwardAxis" else "cleanupForwardAxis")) := by
-  decide +kernel
-
-/-- the builtin library with the exact argument counts each function accepts (lenient ones included:
-    `concat`, `last`, `position` do not check their argument count) -/
-def builtinTable : List (String × List Nat) :=
-  [("boolean", [1]), ("ceiling", [1]), ("concat", [0, 1, 2, 3, 4]), ("contains", [2]), ("count", [1]), ("false", [0]),
-   ("floor", [1]), ("lang", [1]), ("last", [0, 1, 2, 3, 4]), ("local-name", [0, 1]), ("name", [0, 1]),
-   ("namespace-uri", [0, 1]), ("normalize-space", [0, 1]), ("not", [1]), ("number", [0, 1]),
-   ("position", [0, 1, 2, 3, 4]), ("round", [1]), ("starts-with", [2]), ("string", [0, 1]), ("string-length", [0, 1]),
-   ("substring", [2, 3]), ("substring-after", [2]), ("substring-before", [2]), ("sum", [1]), ("translate", [3]),
-   ("true", [0])]
-
-/-- **builtins_table_agree** — the function library is exactly the one `Xsel.builtin` models, with
-    the same accepted argument counts -/
-theorem builtins_table_agree : Generated.builtins = builtinTable := by decide +kernel
-
-def dominated (g e : String × Nat × Nat × Nat × Nat × Nat × Nat) : Bool :=
-  g.1 == e.1 && g.2.1 ≤ e.2.1 && g.2.2.1 ≤ e.2.2.1 && g.2.2.2.1 ≤ e.2.2.2.1 && g.2.2.2.2.1 ≤ e.2.2.2.2.1
-    && g.2.2.2.2.2.1 ≤ e.2.2.2.2.2.1 && g.2.2.2.2.2.2 ≤ e.2.2.2.2.2.2
-
-/-- **partial_sites_covered** — no function of the hand-written packages has more operations that can
-    panic (index, slice, unchecked assertion, %, float→int, panic) than the reviewed table allows -/
-theorem partial_sites_covered :
-    (Generated.partialCounts.all fun g => Expect.partialCounts.any fun e => dominated g e) = true := by
-  decide +kernel
-
-end Xsel.Gen
+import Proofs.GenTables
+import Proofs.GenPurity
+import Proofs.GenStore
+import Proofs.GenAxes
+import Proofs.GenPartial
